@@ -391,7 +391,8 @@ impl<'arena, 'input: 'arena> Lexer<'arena, 'input> {
                         message: ArenaCow::Borrowed("Dis number no get digit after `.`"),
                     }],
                 );
-                self.pos += 1;
+                // Nothing is skipped here: the byte after the dot may be the end of the
+                // input or the first byte of a multi-byte character.
                 return self.next_token().token;
             }
             while self.pos < len && self.src[self.pos].is_ascii_digit() {
